@@ -1,5 +1,6 @@
 import TR.Lemmas.Chaos
 import TR.Lemmas.ChaosStress
+import TR.Lemmas.ChaosHandles
 /-!
 # C19 — chaos injection is reproducible and bounded; injected errors skip the inner call
 
@@ -10,7 +11,9 @@ threshold `⌈p·2⁵³⌉`; `0 ⟺ p = 0`, `P53 = 2⁵³ ⟺ p = 1`; nothing be
 except where `= P53` is the hypothesis). "All ranges" = all `minMs, maxMs : Nat`, including
 `min = max` and `min > max`. "All request counts / orders" = all operation lists of the
 poll-level machine: any number of requests, every order of arrivals, polls, cancellations and
-clock advances, every scripted inner latency/outcome.
+clock advances, every scripted inner latency/outcome — and the caller dropping every handle of the
+service (`Op.dropsvc` / `ROp.dropsvc`) at any point of the list: every theorem below that quantifies over
+operation lists holds for lists containing it.
 -/
 namespace TR.Props.C19
 open TR TR.Chaos
@@ -224,6 +227,83 @@ theorem error_iff {γ : Type} (G : Gen γ) (cfg : Cfg) (g : γ) :
     (decideG G cfg g).1 = .error ↔ cfg.eT > 0 ∧ (G.nextF g).1 < cfg.eT :=
   decideG_error_iff G cfg g
 
+/-! ## the handles may go away while calls are pending
+
+`let f = svc.call(r); drop(svc); f.await`, `svc.oneshot(r)`: every handle of the service (and the layer) is
+dropped while requests have arrived and have not been polled yet, or are asleep, or are in the inner call.
+The decision of a request belongs to its first poll and to the seed's stream, not to the lifetime of a
+handle. (`decisions_are_seed_stream`, `deterministic`, `always_fails_run`, `error_skips_inner`,
+`latency_in_range_run` … already quantify over operation lists that contain `dropsvc`.) -/
+
+/-- **Dropping every handle changes nothing for the requests made before.** A run in which every handle
+is dropped at some point is, up to the flag `gone`, the run without that operation and without the
+arrivals after it (those have no handle to be made on): same log, same decisions in the same order, same
+draws consumed — whether the requests pending at that point had been polled or not. -/
+theorem handles_dropped_no_effect (cfg : Cfg) (ops₁ ops₂ : List Op) :
+    run cfg (ops₁ ++ .dropsvc :: ops₂) = noHandles (run cfg (ops₁ ++ ops₂.filter survives)) :=
+  run_dropsvc cfg ops₁ ops₂
+
+theorem handles_dropped_same_behaviour (cfg : Cfg) (ops₁ ops₂ : List Op) :
+    (run cfg (ops₁ ++ .dropsvc :: ops₂)).log = (run cfg (ops₁ ++ ops₂.filter survives)).log ∧
+    (run cfg (ops₁ ++ .dropsvc :: ops₂)).decs = (run cfg (ops₁ ++ ops₂.filter survives)).decs ∧
+    (run cfg (ops₁ ++ .dropsvc :: ops₂)).decOf = (run cfg (ops₁ ++ ops₂.filter survives)).decOf ∧
+    (run cfg (ops₁ ++ .dropsvc :: ops₂)).used = (run cfg (ops₁ ++ ops₂.filter survives)).used ∧
+    (run cfg (ops₁ ++ .dropsvc :: ops₂)).phase = (run cfg (ops₁ ++ ops₂.filter survives)).phase := by
+  rw [run_dropsvc]; exact ⟨rfl, rfl, rfl, rfl, rfl⟩
+
+/-- The handles dropped between `call()` and the first poll: that first poll takes the same decision from
+the same draws, consumes the same number of draws and has the same effect (injected error at once / sleep /
+inner call) as with the handles alive. -/
+theorem first_poll_after_handles_dropped (cfg : Cfg) (s : State) (c : Nat) (d : Option Draws) :
+    stepS cfg (stepS cfg s .dropsvc) (.poll c d) = noHandles (stepS cfg s (.poll c d)) :=
+  stepS_noHandles cfg s (.poll c d) rfl
+
+/-- Error rate 1, the handles dropped before the first poll: the request still fails in that poll with the
+error built from it, nothing is called, nothing sleeps. -/
+theorem always_fails_after_handles_dropped (cfg : Cfg) (s : State) (c tag : Nat) (st : Step) (d : Draws)
+    (he : cfg.eT = P53) (hph : lookup s.phase c = some (.fresh tag st)) (ha : allowed cfg d = true) :
+    (stepS cfg (stepS cfg s .dropsvc) (.poll c (some d))).log = s.log ++ [.result c (injected tag)] ∧
+    (stepS cfg (stepS cfg s .dropsvc) (.poll c (some d))).serial = s.serial := by
+  rw [first_poll_after_handles_dropped]
+  have hd := always_fails_at_one_draws cfg d ha he
+  have h := error_result_immediate cfg s c tag st d hph ha (by rw [hd])
+  exact ⟨h.1, h.2.1⟩
+
+/-- Once every handle is gone no further request can be made. -/
+theorem no_request_without_handle (cfg : Cfg) (s : State) (c tag : Nat) (st : Step) :
+    stepS cfg (stepS cfg s .dropsvc) (.arrive c tag st) = stepS cfg s .dropsvc :=
+  stepS_noHandles_other cfg s (.arrive c tag st) rfl
+
+/-! ## bounds of a second and more -/
+
+/-- The bounds are compared in whole milliseconds of the WHOLE duration (`Duration::as_millis`): a bound
+of `secs` seconds and `us < 10⁶` further microseconds is `1000·secs + ⌊us/1000⌋` ms — the whole seconds
+are part of it (this is how `machine.init` reads `min_us` / `max_us`). -/
+theorem bound_in_ms (secs us : Nat) : (secs * 1000000 + us) / 1000 = secs * 1000 + us / 1000 :=
+  ms_of_us secs us
+
+/-- An injected latency is never below `min_latency` — for `min ≤ max`, `min = max` and `min > max` alike;
+in particular with `min_latency ≥ secs` seconds every injected latency is at least `1000·secs` ms. -/
+theorem latency_at_least_min {γ : Type} (G : Gen γ) (cfg : Cfg) (g : γ) (ms secs : Nat) (hL : Lawful cfg G)
+    (h : (decideG G cfg g).1 = .latency ms) (hs : secs * 1000 ≤ cfg.minMs) :
+    cfg.minMs ≤ ms ∧ secs * 1000 ≤ ms := by
+  have := decideG_latency_ge_min G cfg g ms hL h
+  exact ⟨this, by omega⟩
+
+/-- `min_latency = max_latency = 1 s` at latency rate 1 (no error injector): every request is delayed by
+exactly 1000 ms, for every seed; `[1200, 2800]` ms: by at least 1200 and at most 2800 ms. -/
+theorem one_second_is_one_second {γ : Type} (G : Gen γ) (g : γ) (lo hi : Nat) (hle : lo ≤ hi)
+    (hL : Lawful { eT := 0, lT := P53, minMs := lo, maxMs := hi } G) :
+    ∃ ms, (decideG G { eT := 0, lT := P53, minMs := lo, maxMs := hi } g).1 = .latency ms ∧ lo ≤ ms ∧ ms ≤ hi := by
+  have hroll := hL.roll g
+  by_cases hm : hi > lo
+  · refine ⟨(G.nextR lo hi (G.nextF g).2).1, ?_, hL.range hle _⟩
+    simp only [P53] at hroll
+    simp [decideG, P53, hm, hroll]
+  · refine ⟨lo, ?_, Nat.le_refl _, hle⟩
+    simp only [P53] at hroll
+    simp [decideG, P53, hm, hroll]
+
 /-! ## many threads on clones of one service
 
 Assumption (not proved here, it is a property of `std::sync::Mutex`): the rolls of one request are
@@ -313,6 +393,18 @@ example :
       [.result 1 (.inner 99 11), .innerCall 3 0, .innerDone 3 0 (.err 1), .result 3 (.inner 1 0),
        .innerCall 2 1, .innerDone 2 1 .ok, .result 2 (.ok 1)] ∧
     (run cfg ops).decs = [.error, .latency 3, .pass] ∧ (run cfg ops).now = 3 := by
+  decide
+
+/-- Every handle dropped between the arrivals and the first polls (`let f = svc.call(r); drop(svc); f.await`):
+request 1 still gets its injected error, request 2 its delay of 1500 ms out of [1200, 2800] (polled at 1499 ms:
+nothing; at 1500 ms: the inner call); request 3 arrives when there is no handle left and is never made. -/
+example :
+    let cfg : Cfg := { eT := P53 / 2, lT := P53, minMs := 1200, maxMs := 2800 }
+    let ops := [Op.arrive 1 11 ⟨0, .ok⟩, .arrive 2 12 ⟨0, .ok⟩, .dropsvc, .arrive 3 13 ⟨0, .ok⟩,
+                .poll 1 (some ⟨1, 0, 1300, 1400⟩), .poll 2 (some ⟨P53 - 1, 7, 1300, 1500⟩), .poll 3 none,
+                .adv 1499, .poll 2 none, .adv 1, .poll 2 none]
+    (run cfg ops).log = [.result 1 (.inner 99 11), .innerCall 2 0, .innerDone 2 0 .ok, .result 2 (.ok 0)] ∧
+    (run cfg ops).decs = [.error, .latency 1500] ∧ (run cfg ops).now = 1500 ∧ (run cfg ops).gone = true := by
   decide
 
 /-- A generator within the contract exists (`counterGen`: a counter; rolls alternate between 0 and
